@@ -5,11 +5,13 @@ go 1.23.4
 require (
 	github.com/AdguardTeam/AdGuardDNS v0.0.0
 	github.com/AdguardTeam/AdGuardDNS/internal/dnsserver v0.0.0
+	github.com/AdguardTeam/golibs v0.30.4
 	github.com/anishathalye/porcupine v1.3.0
+	github.com/miekg/dns v1.1.62
+	github.com/prometheus/client_golang v1.20.5
 )
 
 require (
-	github.com/AdguardTeam/golibs v0.30.4 // indirect
 	github.com/AdguardTeam/urlfilter v0.20.0 // indirect
 	github.com/aead/chacha20 v0.0.0-20180709150244-8b13a72661da // indirect
 	github.com/aead/poly1305 v0.0.0-20180717145839-3fee0db0b635 // indirect
@@ -26,12 +28,10 @@ require (
 	github.com/gomodule/redigo v1.9.2 // indirect
 	github.com/google/renameio/v2 v2.0.0 // indirect
 	github.com/klauspost/compress v1.17.11 // indirect
-	github.com/miekg/dns v1.1.62 // indirect
 	github.com/munnerz/goautoneg v0.0.0-20191010083416-a7dc8b61c822 // indirect
 	github.com/oschwald/maxminddb-golang v1.13.1 // indirect
 	github.com/panjf2000/ants/v2 v2.10.0 // indirect
 	github.com/patrickmn/go-cache v2.1.1-0.20191004192108-46f407853014+incompatible // indirect
-	github.com/prometheus/client_golang v1.20.5 // indirect
 	github.com/prometheus/client_model v0.6.1 // indirect
 	github.com/prometheus/common v0.60.1 // indirect
 	github.com/prometheus/procfs v0.15.1 // indirect
